@@ -658,7 +658,7 @@ func (w *World) snapshot() []ISnap {
 			continue
 		}
 		s := ISnap{I: id, IsLeader: in.el.IsLeader(), Token: in.el.Token(), LeaderID: in.el.LeaderID(), Gauge: in.gauge, NProm: in.nProm, NDem: in.nDem, Blocked: true,
-			InStop: in.inStopCall > 0, StopDone: in.stopDone, StopFailed: in.stopFailed, Started: in.started, Cut: in.cut(), WQ: -1}
+			InStop: in.inStopCall > 0, StopDone: in.stopDone, StopFailed: in.stopFailed, CtxCancelled: in.ctxCancelled, Started: in.started, Cut: in.cut(), WQ: -1}
 		for _, hw := range w.watchers {
 			if hw.Inst == id && !hw.stopped && !hw.closed {
 				s.WQ, s.WDeliv = len(hw.queue), hw.nDeliv
